@@ -383,6 +383,63 @@ def check_sequential(sc, obs):
     return bad
 
 
+def check_concurrent(sc, obs):
+    """C03's refusal / least-loaded clauses in a form that is sound under true concurrency, from observed times:
+    a poll Q certainly waited in its heap during the whole of client C's request when Q was SEEN registered before C
+    was sent, C returned less than 10 s after Q was sent (Q's timer had not fired), and Q was never matched."""
+    bad = []
+    polls = {e["k"]: e for e in sc.events if e["kind"] == "P"}
+    by_offer = {}
+    for pk in polls:
+        r = obs.get("P%d" % pk, "")
+        if r.startswith("match:"):
+            by_offer[r.split(":")[1]] = pk
+
+    def times(key, n):
+        try:
+            v = [int(x) for x in obs.get(key, "").split(":")]
+            return v if len(v) == n else None
+        except ValueError:
+            return None
+
+    for c in (e for e in sc.events if e["kind"] == "C"):
+        tc = times("tC%d" % c["k"], 2)
+        r = obs.get("C%d" % c["k"], "")
+        if not tc or tc[0] < 0 or tc[1] < 0:
+            continue
+        fp = DEFAULT_FP if c["fp"] == "-" else c["fp"]
+        if fp not in sc.lists_from(c["t"])[0] or any(e["kind"] == "I" for e in sc.events) and sc.herd:
+            continue
+        cn = c["nat"] if c["nat"] else "unknown"
+        chosen = by_offer.get(c["offer"])
+        # the client's matchSnowflake call ended before the poll it was given returned / before the refusal returned
+        upper = tc[1]
+        if chosen is not None:
+            tp = times("tP%d" % chosen, 3)
+            if tp and tp[2] >= 0:
+                upper = min(upper, tp[2])
+        waiting = []
+        for pk, q in polls.items():
+            tq = times("tP%d" % pk, 3)
+            if not tq or tq[0] < 0 or tq[1] < 0:
+                continue
+            pn = q["nat"] if q["nat"] else "unknown"
+            compatible = (pn != "unrestricted") if cn == "unrestricted" else (pn == "unrestricted")
+            if compatible and obs.get("P%d" % pk) == "nomatch" and tq[1] < tc[0] and upper < tq[0] + TMO:
+                waiting.append(pk)
+        if not waiting:
+            continue
+        if r == "noproxies":
+            bad.append(("C03", "refused-although-proxy-waiting", "C%d (%s) was refused although %s waited in its pool during the whole request (times %s)" % (
+                c["k"], cn, ["P%d" % k for k in waiting], obs.get("tC%d" % c["k"]))))
+        if chosen is not None:
+            m = min(polls[k]["clients"] for k in waiting)
+            if polls[chosen]["clients"] > m:
+                bad.append(("C03", "not-least-loaded", "C%d was given P%d (load %d) although a proxy with load %d (%s) waited in its pool during the whole request" % (
+                    c["k"], chosen, polls[chosen]["clients"], m, ["P%d" % k for k in waiting if polls[k]["clients"] == m])))
+    return bad
+
+
 # ---------------------------------------------------------------- running
 
 def run_scenarios(ctx, scens, props, label):
@@ -401,6 +458,8 @@ def run_scenarios(ctx, scens, props, label):
         bad = check_history(sc, obs)
         if not sc.herd:
             bad += check_sequential(sc, obs)
+        seen = set((p_, k_) for p_, k_, _ in bad)
+        bad += [b for b in check_concurrent(sc, obs) if (b[0], b[1]) not in seen]
         for prop, key, text in bad:
             if prop in props:
                 ctx.violation(key, "%s [%s]" % (text, sc.name), dict(label=label, scenario=sc.name, case=line, impl=o))
@@ -670,6 +729,18 @@ def scenarios(rng, tier):
             for j, sid in enumerate(sids):
                 if rng.random() < 0.8:
                     sc.answer(rng.randrange(0, 300), sid, fresh("ans"), after_poll=j)
+            S.append(sc)
+        # surplus herds: more waiting proxies than clients, few distinct loads: the proxies left over at the end must not
+        # be less loaded than the ones handed out, and nobody may be refused (predicates sound under concurrency)
+        for size in ([10] if tier == "quick" else [10, 30]):
+            sc = Scen(fresh("surplus"), "surplus-herd", herd=True, watchdog=14000)
+            for j in range(size):
+                sc.poll(rng.randrange(0, 40), fresh("sid"), rng.choice(["unrestricted", "unrestricted", "restricted"]), clients=rng.choice([0, 0, 1, 8, 9]),
+                        ptype=rng.choice(["standalone", "webext", "badge"]))
+            for j in range(size // 2):
+                sc.client(600 + rng.randrange(0, 40), rng.choice(cnats), "{%s}" % fresh("o"), mode=rng.choice(modes))
+            for j in range(size):
+                sc.answer(100, [e for e in sc.events if e["kind"] == "P"][j]["sid"], fresh("ans"), after_poll=j)
             S.append(sc)
         # delivery herds: every client is matched with its own proxy and all client responses are delivered at the same
         # time (slow connections: the first Write of every client handler waits for the others); answers of different
